@@ -439,6 +439,18 @@ class Interp:
             return cont(st, v)
         if n.endswith('ptr::write') or re.search(r'mut_ptr::write$', n):
             st.store(args[0], args[1]); return cont(st, Opaque('unit'))
+        if n.endswith('needs_drop'):
+            # an unknown property of the payload type, the same for every operation and thread of a scenario: one
+            # template-level variable that is NOT renamed per instance; both worlds are explored
+            tp = BitVec('TP_needs_drop', 64)
+            known = st.mem.get(('TYPEPROP', 'needs_drop'))
+            for val in ((True, False) if known is None else (known,)):
+                st2 = st.clone() if known is None else st
+                st2.mem[('TYPEPROP', 'needs_drop')] = val
+                if known is None: st2.pc.append(tp == (1 if val else 0))
+                try: cont(st2, val)
+                except PathEnd as e: s.results.append((st2, ('end', e.why)))
+            return
         if re.search(r'mem::(size_of|align_of|size_of_val|align_of_val)$', n): return cont(st, st.fresh('layout'))  # unknown property of the payload type
         if n == 'Result::map':
             r, fn = args
